@@ -19,7 +19,10 @@ Link to the code (every run):
         and the new hop names the selected peer and is keyed with KDF(DH(x,key) || DH(x, B_selected));
       - nobody but the selected peer holds those keys (the attacker's own derivations are compared);
       - genuine answer => both ends hold identical keys and a cell encrypted by one side decrypts at the other;
-      - undisturbed build => READY, hops = selected peers in order.
+      - undisturbed build => READY, hops = selected peers in order;
+      - after EVERY later step (replays after cache expiry, late answers at relays, timeouts): the selected peer still
+        holds the originator's keys for every established hop and every relay still routes it to the selected node;
+      - end of scenario: every regularly established READY circuit carries a request to its last hop and back.
 """
 from __future__ import annotations
 
@@ -38,7 +41,9 @@ PROPS_FILE = "Ipv8/C08/Props.lean"
 DRIVER = "drv_c08"
 RULE = ("scenario = (hop count 1..3, attacked position, attacker kind {network on a plaintext link, malicious relay, "
         "other responder}, manipulation, follow-up {none, genuine after, genuine before}) enumerated as a cross product "
-        "plus seeded random schedules (reorder/duplicate/drop/late/timeouts/API retries/two circuits); a case = one "
+        "plus replays of all handshake cells before/after cache expiry, late answers at the relay after a retry, "
+        "remove_tunnel_delay in {0, default}, seeded random schedules (reorder/duplicate/drop/late/timeouts/API "
+        "retries/two circuits); a case = one "
         "delivered cell or timeout sweep or API call; distinct = distinct (scenario descriptor, step index); "
         "non-trivial = the step reached a create/created/extend/extended handler or fired a cache timeout")
 TRUSTED_BASE = [
